@@ -4,7 +4,7 @@ PROP = dict(
     go='c15', n_quick=200, n_thorough=2000,
     coq_header=LC_HEADER,
     case_type='C15.case', verdict='C15.verdict',
-    rule='every command kind with -p in unmounted/mounted states followed by the same command for real; non-trivial: the real run mutates',
+    rule='every command kind with -p in unmounted/mounted states followed by the same command for real; non-trivial: the real run mutates Every 5th case is process level: the real binary on the real kernel in a private mount namespace with -p (and -v/-debug/-force, local switches) at a random position of the command line; its -debug output shows which pretender is installed (compared with the Args model) and the fault-point log, the file tree and the mount table show whether anything was done.',
     explanation='per step Coq evaluates: model step = observed step (result class, operation log, file tree, kernel table, '
                 'layer states) from the observed world before it, and the C15 predicate on the observed worlds',
     assumptions=['in-process runs use a simulated kernel mount table (harness/simk = coq/Model/Kernel.v); the file tree is real',
